@@ -56,10 +56,10 @@ ITER_EXCEPTIONS = {
 
 def run(ctx):
     ix = ctx.index
-    rule_a(ctx, ix)
-    rule_b(ctx, ix)
-    rule_c(ctx, ix)
-    rule_d(ctx, ix)
+    ctx.guard(rule_a, ctx, ix)
+    ctx.guard(rule_b, ctx, ix)
+    ctx.guard(rule_c, ctx, ix)
+    ctx.guard(rule_d, ctx, ix)
 
 
 def _reaches(ix, cls, handler_src, target, depth=0):
@@ -113,8 +113,27 @@ def rule_a(ctx, ix):
                                      if hs else 'no longer subscribes to %s' % msg,
                                      'the %s keeps showing what was removed / does not show what was added' % ('viewer' if 'Viewer' in cq else 'picker')),
                where=cls.where)
-    # what the operations touch
+    # filters of the viewer's subset subscriptions: create is filtered on the subset's dataset being shown, update/delete on
+    # the subset (or dataset) itself being shown - a viewer may show a subset without its dataset
     v = ix.cls(V)
+    subs = _all_subscriptions(ix, v)
+    for msg, want_data in (('SubsetCreateMessage', True), ('SubsetDeleteMessage', False), ('SubsetUpdateMessage', False)):
+        for mq, h, flt in subs:
+            if mq != M + msg or flt is None:
+                continue
+            ff = v.resolve_func(flt.rpartition('.')[2])
+            if ff is None:
+                continue
+            rets = [unparse(r.value) for r in returns_of(ff) if r.value is not None]
+            txt = ' '.join(rets)
+            on_data = '.sender.data in' in txt
+            on_self = '.sender in' in txt
+            ok = on_data if want_data else (on_self and not on_data)
+            ctx.ob(R, '%s <- %s filter' % (v.construct, msg), 'the filter accepts the message when %s is shown'
+                   % ('the dataset of the new subset' if want_data else 'the subset itself'), ok,
+                   detail='Viewer subscribes %s with filter %s (`%s`): %s' % (
+                       msg, flt, txt, 'a shown subset whose dataset has no layer in this viewer is never removed/updated'
+                       if not want_data else 'new subsets of shown datasets are not added'), where=v.where)
     f = v.resolve_func('remove_data')
     lp = [n for n in ast.walk(f.node) if isinstance(n, ast.For)]
     ok = len(lp) == 1 and unparse(lp[0].iter) in ('self.state.layers[::-1]', 'list(self.state.layers)', 'self.state.layers[:]')
